@@ -138,7 +138,7 @@ def handle : List Sexp → Option Sexp
       let nodes ← nodes.mapM node?
       if nodesOkB m nodes && listOk [] nodes then
         let evs := expectedList [] nodes
-        pure (.list ((if strip then coalesceStrip evs else coalesce evs).map evOut))
+        pure (.list ((if strip then coalesceStrip m evs else coalesce evs).map evOut))
       else pure (.atom "outside")
   -- the specification-side reader on a document
   | [.atom "read", m, .str doc] => do
